@@ -150,9 +150,9 @@ func (f *Fixture) ReloadLoop(mut func(*config.MockConfig)) {
 	}
 }
 
-// SenderIdle waits until the outgoing queue is empty. (The body of the last transmission may still be
-// running; Close() joins the sender, after which Tx is final.)
+// SenderIdle returns when the real sendTraces goroutine has finished transmitting everything the workers
+// have queued so far (sentinel barrier, see hook VerifSenderBarrier). Call after Quiesce/QuiesceAll.
 func (f *Fixture) SenderIdle() {
 	f.mustLoop()
-	spin("sender", func() bool { return f.Coll.VerifOutgoingLen() == 0 })
+	f.Coll.VerifSenderBarrier()
 }
